@@ -226,6 +226,7 @@ class Shaper(object):
         self._class_min_iris = None
         self._class_shexer = None
         self._shape_list = None
+        self._shape_list_threshold = None
 
     def profile_graph(self, string_output=False, output_file=None, verbose=False):
         self._check_correct_output_params(string_output, output_file, None)
@@ -261,7 +262,9 @@ class Shaper(object):
             self._launch_instance_tracker(verbose=verbose)
         if self._profile is None:
             self._launch_class_profiler(verbose=verbose)
-        if self._shape_list is None:
+        if self._shape_list is None or self._shape_list_threshold != acceptance_threshold:
+            self._class_shexer = None  # a ClassShexer accumulates shapes: a new one is needed for a new threshold
+            self._shape_list_threshold = acceptance_threshold
             self._launch_class_shexer(acceptance_threshold=acceptance_threshold,
                                       verbose=verbose)
         log_msg(verbose=verbose,
